@@ -2,6 +2,7 @@ SPECIFICATION ISpec
 CONSTANTS
   Ms = {64}
   RecThreshold = 32
+  Layout = "reim"
   GenMode = FALSE
 INVARIANTS IWellFormed InverseIsInverse
 CHECK_DEADLOCK FALSE
